@@ -65,7 +65,7 @@ def rs_job(focus, profiles=("release",)):
 
 PROPS.update({
     "C03": {
-        "level_text": "Fault enumeration driven by the specification's block structure: for every size and block, error patterns of weight 1..floor(k/2) in the data region, the EC region, split, first/last codeword of each region, bursts, all blocks at once, and patterns whose error values make the first m syndromes vanish (the decoder's special paths); TLC recomputes the per-block distance with its own interleaving and requires success with exactly the sent word.",
+        "level_text": "Fault enumeration driven by the specification's block structure: for every size and block, error patterns of weight 1..floor(k/2) in the data region, the EC region, split, first/last codeword of each region, bursts, all blocks at once, patterns whose error values make the first m syndromes vanish, and u errors plus a pattern whose first 2u+m syndromes vanish (singular steps of every length in the decoder's locator search); TLC recomputes the per-block distance with its own interleaving and requires success with exactly the sent word.",
         "level_note": "Trusts: GF256.tla/ReedSolomon.tla (self-checked by ASSUMEs); premise 'sent is a codeword' is evaluated by TLC, not assumed.",
         "jobs": [rs_job("C03")],
         "rule": "one case = (size, random data vector, error pattern within capacity) -> encode_error, corrupt, decode_error; 12 pattern "
@@ -84,11 +84,11 @@ PROPS.update({
         "exhaustive_thorough": False,
     },
     "C09": {
-        "level_text": "Whenever decode_error reports success TLC recomputes all syndromes of the word left behind; received words are aimed at the thin sets: codeword + multiple of prod_{i<=m}(x-alpha^i) for m = 2t-2..k-1 (+ up to t-1 errors), distance t+1..t+3 and k, uniformly random words (4000 for 10x10).",
+        "level_text": "Whenever decode_error reports success TLC recomputes all syndromes of the word left behind; received words are aimed at the thin sets: codeword + multiple of prod_{i<=m}(x-alpha^i) for m = 2t-2..k-1 (+ up to t-1 errors), distance t+1..t+3 and k, syndromes of genuine error patterns with one structured perturbation, uniformly random words (4000 for 10x10); plus a storm of 2 x 10^8 (thorough 1.6 x 10^9) words drawn from ten prescribed-zero thin sets of the syndrome space on the six small single-block sizes, of which every word the implementation reports success on is logged and judged.",
         "level_note": "Trusts: GF256.tla/ReedSolomon.tla.",
         "jobs": [rs_job("C09")],
         "rule": "one case = (size, received word); non-trivial = decoder returned Ok on a word that differs from a sent codeword or has no "
-                "sent codeword; counted: all cases where the decoder was consulted beyond capacity",
+                "sent codeword; counted: all cases where the decoder was consulted beyond capacity; the storm's unlogged calls (decoder said Err) are not counted as cases",
         "assumptions": [],
     },
 })
@@ -120,7 +120,7 @@ PROPS.update({
 
 PROPS["C12"] = {
     "mc": ["MC_SymbolList"],
-    "level_text": "Trace_Sym: (a) the six observable attributes of all 48 sizes (dimensions, data and total codewords, is_square, is_dmre) are compared with the catalogue of Symbols.tla transcribed from ISO/IEC 16022 Table 7 / ISO 21471 (its ASSUMEs check module-count identity and uniqueness of dimensions); blocks and EC per block are pinned by the C06 run, region layout by C08. (b) SymbolList builder traces: every call is an action of the SymbolList machine; set, iteration order, is_empty, contains are compared after each call. (c) every Probe (ASCII-only encoding of n characters) must pick FirstBigEnough of the list's own order.",
+    "level_text": "Trace_Sym: (a) the six observable attributes of all 48 sizes (dimensions, data and total codewords, is_square, is_dmre) are compared with the catalogue of Symbols.tla transcribed from ISO/IEC 16022 Table 7 / ISO 21471 (its ASSUMEs check module-count identity and uniqueness of dimensions); blocks and EC per block are pinned by the C06 run, region layout by C08. (b) SymbolList builder traces: every call is an action of the SymbolList machine; set, iteration order, is_empty, contains are compared after each call. (c) every Probe (ASCII-only encoding of n characters, n digits, 3n X12 characters, a Macro 05 envelope around digits sized at the list's largest symbol) must pick FirstBigEnough of the list's own order.",
     "level_note": "Trusts: Symbols.tla transcription. Width/height filters are enumerated for all bound kinds (unbounded/included/excluded) at every distinct dimension +-1 (thorough: 0..151).",
     "jobs": [{"family": "sym", "spec": "Trace_Sym", "coverage": True},
              # number of blocks / EC codewords per block: the encoder's output must be a codeword under the catalogue's interleaving
@@ -131,7 +131,7 @@ PROPS["C12"] = {
 }
 
 PROPS["C04"] = {
-    "level_text": "Specification -> implementation: TLC enumerates EVERY behaviour of the strict reference encoder Writer.tla (all legal segmentations into mode runs, all end-of-symbol forms, Base256 with explicit and to-end-of-symbol length, EDIFACT unlatch at each position, macro/FNC1 headers, pads) for all inputs over a 12-byte class alphabet up to length 2 (thorough: 3) at capacities 3..16, and random behaviours (-simulate, seeded) for short inputs over a 26-byte alphabet and for inputs up to 700 bytes; each printed stream is fed to decode_data (and decode_str when printable Latin-1) and must return the spec's input. MC_Codec checks Writer x Stream (reader) = identity beforehand.",
+    "level_text": "Specification -> implementation: TLC enumerates EVERY behaviour of the strict reference encoder Writer.tla (all legal segmentations into mode runs, all end-of-symbol forms, Base256 with explicit and to-end-of-symbol length, EDIFACT unlatch at each position, macro/FNC1 headers, pads) for all inputs over a 12-byte class alphabet up to length 2 (thorough: 3) at capacities 3..16, all behaviours for ~620 targeted inputs (a body filling whole triples/groups x prefix length x one or two tail characters from every boundary of the ASCII codeword ranges), and random behaviours (-simulate, seeded) for short inputs over a 26-byte alphabet and for inputs up to 700 bytes; each printed stream is fed to decode_data (and decode_str when printable Latin-1) and must return the spec's input. MC_Codec checks Writer x Stream (reader) = identity beforehand.",
     "level_note": "Trusts: Writer.tla generates only conformant streams (cross-checked against the independent reader Stream.tla by MC_Codec). The verdict is an equality computed by the harness; the expected value comes from the specification.",
     "technique": "TLA+ Writer specification; TLC-generated behaviours (exhaustive + simulation) replayed into the implementation's decoder",
     "mc": ["MC_Codec"],
@@ -142,13 +142,13 @@ PROPS["C04"] = {
 }
 PROPS["C10"] = {
     "technique": "TLA+ reference encoder explored by TLC below the implementation's symbol (witness = smaller valid encoding, confirmed by replay into the crate's decoder) + TLC trace validation",
-    "level_text": "(A) closed forms on a fixed-seed case set of every input length: never a larger symbol than plain ASCII / plain Base256 needs, TooMuch only if those do not fit, ties resolved by list order (clauses of Trace_Enc). (B) Writer exploration (Trace_Min): for a deterministic set of ~25k short cases (thorough ~200k) TLC runs the strict reference encoder against every listed capacity strictly below the implementation's choice (all if it refused); any completed behaviour is a valid smaller encoding. Each reported violation carries the witness stream, which the implementation's own decoder must decode to the input before it is reported.",
+    "level_text": "(A) closed forms on a fixed-seed case set of every input length: never a larger symbol than a closed-form legal encoding needs (ASCII with digit pairs; one Base256 field; ASCII with every high-byte run as one Base256 field; C40/Text/X12/EDIFACT throughout for messages of that scheme's native characters), TooMuch only if none of those fits, ties resolved by list order (clauses of Trace_Enc). (B) Writer exploration (Trace_Min): for a deterministic set of ~25k short cases (thorough ~200k) TLC runs the strict reference encoder against every listed capacity strictly below the implementation's choice (all if it refused); any completed behaviour is a valid smaller encoding. Each reported violation carries the witness stream, which the implementation's own decoder must decode to the input before it is reported.",
     "level_note": "Trusts: Writer.tla is a SUBSET of the conformant encodings (strict reading of the end-of-symbol rules; with ASCII disabled ASCII data only inside the standard's fallbacks), so a witness is a real smaller encoding. Known findings are identified by the specific input+configuration (KNOWN_FINDINGS.txt).",
     # both parts use a fixed generator seed: the planner is a heuristic, so random exploration could always turn up a
     # further genuine non-minimal input; known findings must be reproducible (identified by input), see DESIGN.md section 5
     "jobs": [dict(enc_job("C10A"), fixed_seed=20261003), {"family": "enc", "spec": "Trace_Min", "custom": custom.c10_min_job}],
     "rule": "(A) as C01 with the fixed generator seed 20261003 (VERIF_SEED is not used by this check); (B) same fixed seed: class-alphabet strings to length 3, boundary strings per class x tail, class pairs, envelope strings, random runs <= 40 bytes x lists x mode sets; non-trivial = encoder returned Ok or TooMuch; distinct = distinct (input, configuration)",
-    "assumptions": ["optimality against ALL conformant encodings is decided only for inputs <= 40 bytes; longer inputs only against the two closed forms"],
+    "assumptions": ["optimality against ALL conformant encodings is decided only for inputs <= 40 bytes; longer inputs only against the closed forms"],
 }
 
 PROPS["C18"] = {
@@ -170,7 +170,7 @@ PROPS["C19"] = {
 
 BOTH = ("release", "checked")
 PROPS["C05"] = {
-    "level_text": "All five decoding entry points, in the release profile and in a profile with overflow checks and debug assertions; every call runs under catch_unwind and a watchdog and its outcome is an event; the trace specifications have no action for a panic or hang. Inputs are aimed by the specification at the thin sets: RS words with prescribed zero patterns of the syndrome vector (all 2^k patterns for k <= 7, single/double/alternating/leading zeros otherwise, built by solving the Vandermonde system), multiples of prod_{i<=m}(x-alpha^i) for every m, words beyond capacity; all codeword streams of length <= 2, <h,x,y> for every special codeword h, all ECI designator forms, every byte under every character set, random streams; pixel arrays of every width 0..150 with matching and non-matching lengths, every single finder module of every size flipped, random multi-flips.",
+    "level_text": "All five decoding entry points, in the release profile and in a profile with overflow checks and debug assertions; every call runs under catch_unwind and a watchdog and its outcome is an event; the trace specifications have no action for a panic or hang. Inputs are aimed by the specification at the thin sets: RS words with prescribed zero patterns of the syndrome vector (all 2^k patterns for k <= 7, single/double/alternating/leading zeros otherwise, built by solving the Vandermonde system), multiples of prod_{i<=m}(x-alpha^i) for every m, words beyond capacity; all codeword streams of length <= 2, <h,x,y> for every special codeword h, all ECI designator forms, every byte under every character set, every Base256 length form against payloads one to three bytes short or long, the crate's own encoder output cut at every position and with single codewords replaced by special values, random streams; pixel arrays of every width 0..150 with matching and non-matching lengths, arrays far beyond 144 x 144 whose dimensions alias a real symbol modulo 256, every single finder module of every size flipped, random multi-flips.",
     "level_note": "Trusts: catch_unwind + panic hook observe every panic; a hang is a 20 s watchdog expiry. TLC recomputes the syndromes of every received word, so the evidence reports which zero patterns were really presented.",
     "jobs": [rs_job("C05", BOTH),
              {"family": "dec", "spec": "Trace_Dec", "profiles": BOTH, "coverage": True},
